@@ -214,7 +214,31 @@ func runRemote(o *opts) {
 			}
 		}
 		s.count(fmt.Sprintf("wipe:%d", wipe))
-		fc := do(false, want(32, 33, 34, 35), "fetch")
+		if wipe != 2 && rr.chance(1, 3) {
+			// an object is missing on the remote: the fetch fails part-way, the cause is repaired, the
+			// fetch is repeated; nothing that arrived in between may stay writable
+			rem, _ := snapCache(remote)
+			var missingLocally []CObj
+			now, _ := snapCache(p.CacheDir)
+			have := map[string]bool{}
+			for _, ob := range now {
+				have[ob.Digest] = true
+			}
+			for _, ob := range rem {
+				if !have[ob.Digest] && !strings.HasPrefix(string(ob.Data), "{\"path\"") {
+					missingLocally = append(missingLocally, ob)
+				}
+			}
+			if len(missingLocally) >= 2 {
+				v := missingLocally[rr.intn(len(missingLocally))]
+				vp := cachePathOf(remote, v.Digest)
+				must(os.Rename(vp, vp+".aside"))
+				do(false, want(33, 36, 37), "fetch with an object missing on the remote")
+				must(os.Rename(vp+".aside", vp))
+				s.count("fetch:failed-part-way-then-retried")
+			}
+		}
+		fc := do(false, want(32, 33, 34, 35, 36), "fetch")
 		if !fc.ok {
 			rmrf(base)
 			continue
